@@ -776,6 +776,15 @@ class Engine:
     def e_Starred(self, node, st, fid):
         raise Unsupported("starred expression outside call")
 
+    def e_Yield(self, node, st, fid):
+        # a generator function executed EAGERLY: only through the hook "yield" (eng, st, value) -> outcomes, which records the value
+        # (e.g. in a ghost trace); the value of the yield expression itself is what the hook returns (None for a plain `yield x`)
+        h = self.hooks.get("yield")
+        if h is None:
+            raise Unsupported("yield (no `yield` hook)")
+        outs = self.eval(node.value, st, fid) if node.value is not None else [("ok", st, NONE)]
+        return self.bind(outs, lambda s, v: h(self, s, v))
+
     def e_Call(self, node, st, fid):
         def after_f(s, f):
             pos_nodes, star_idx = [], []
